@@ -220,7 +220,7 @@ pub fn run(rep: &mut Rep) {
         }
     }
     // requests with parameters, sampled from the C01 corpus
-    let n = rep.n(600, 60_000);
+    let n = rep.n(600, 300_000);
     for (cmd, name, s) in schema::commands() {
         for _ in 0..n * rep.nshards {
             case += 1;
